@@ -15,6 +15,10 @@ constants that print alike across types, contain the key encoding's separators, 
 Constant.Hash() (same judge; floats / byte strings are opaque tagged pairs in the model);
 (2) `cyc_program` + runner `c02cyc` + Run.C02.judge_cyc - programs with an aggregation edge on a
 dependency cycle, run from text many times each, must be refused on every run.
+Round 2: (3) `BiGen` - aggregating bodies with built-in predicate atoms that BIND variables (:match_pair :match_cons
+:list:member :match_field :match_entry over pair / list / struct / map valued columns), their output variables used as
+group keys and reducer arguments; judged by Run.C02.judge_bi (the built-in relations materialised in the model,
+Datalog/AggBuiltin.v; same observer). All kinds of cases go through Run.C02.judge_any in one batch.
 
 Program representation = checks/datalog_common.py plus, on a clause,
   "do": {"keys": [var, ...], "stmts": [["reduce", var, rname, [term, ...]] | ["apply", var, term]]}
@@ -337,6 +341,16 @@ def cq_case(prog, group, fuel=FUEL):
                  [cq_fact(f) for f in prog.get("pre", [])],
                  [cq_fact(f) for f in prog.get("init", [])], fuel,
                  [tuple(x) for x in sort_cols(prog)], cq_obs(group)))
+
+
+def is_bi(prog):
+    """The program has built-in predicate atoms in aggregating bodies: judged by Run.C02.judge_bi."""
+    return prog.get("kind") == "builtin"
+
+
+def tagged_case(prog, group):
+    """Argument of Run.C02.judge_any."""
+    return "(%s %s)" % ("ABuiltin" if is_bi(prog) else "APlain", cq_case(prog, group))
 
 
 def go_case(prog, stores, det, shuffle_rng=None):
@@ -960,7 +974,8 @@ def cq_cyc(prog, out):
 # their output places. The stream below makes such output variables group keys and reducer arguments.
 #   premise ["bi", ":match_pair", [term, ...]]   positive built-in atom      ["nbi", ...] negated (:match_nil)
 # Column types: "N" number, "A" name, ("P", t1, t2) pair, ("L", t) list, ("S", ((label, t), ...)) struct,
-# ("M", kt, vt) map. Structs and maps are tagged pairs in the model (Datalog/AggBuiltin.v).
+# ("M", kt, vt) map, ("U", t) list in no particular order (a collected column: only :list:member reads it).
+# Structs and maps are tagged pairs in the model (Datalog/AggBuiltin.v).
 STRUCT = "/__struct"
 MAPT = "/__map"
 LABELS = ["/a", "/b", "/c"]
@@ -1021,7 +1036,7 @@ class BiGen:
     def value(self, t, top=False):
         r = self.rng
         if t == "N":
-            return dc.num(r.choice([0, 1, 2, 3]) if top else r.choice([1, 2, 3, 4, 5, 6, 7]))
+            return dc.num(r.choice([1, 2, 3, 4]) if top else r.choice([1, 2, 3, 4, 5, 6, 7]))
         if t == "A":
             return dc.name(r.choice(dc.NAMES[:3] if top else dc.NAMES))
         if t[0] == "P":
@@ -1138,8 +1153,9 @@ class BiGen:
                 body.append(["bi", ":match_pair", [dc.var(v), a, b]])
                 new = [a, b]
                 self.features.add("bi-match_pair")
-            elif t[0] == "L":
-                x = r.random()
+            elif t[0] in ("L", "U"):
+                # the element order of a collected list is not an observable: no positional destructuring
+                x = r.random() if t[0] == "L" else 0.0
                 if x < 0.45:
                     a = dc.var(fresh(t[1]))
                     body.append(["bi", ":list:member", [a, dc.var(v)]])
@@ -1292,7 +1308,7 @@ class BiGen:
                 stmts.append(["reduce", v, kind, args])
                 self.features.add(kind)
                 et = col[1][0] if len(col[1]) == 1 else ("P", col[1][0], col[1][1])
-                coltypes.append(("L", et))
+                coltypes.append(("U", et))
             hvars.append(v)
         for st in stmts:
             for t in (st[3] if st[0] == "reduce" else []):
@@ -1396,15 +1412,15 @@ def gen_bi_program(rng):
 def witness_getvars():
     """The seeded/C04-5 shapes: a group key and reducer arguments bound only by built-in output places."""
     L, H, T, E, P, K, Vv, S = 1, 2, 3, 4, 5, 6, 7, 8
-    cl = [agg(3, [V(H), V(S)], [["atom", dc.atom(0, V(L))], ["bi", ":match_cons", [V(L), V(H), V(T)]]], [H],
+    cl = [agg(4, [V(H), V(S)], [["atom", dc.atom(0, V(L))], ["bi", ":match_cons", [V(L), V(H), V(T)]]], [H],
               [["reduce", S, "count", []]]),
-          agg(4, [V(S)], [["atom", dc.atom(0, V(L))], ["bi", ":list:member", [V(E), V(L)]]], [],
+          agg(5, [V(S)], [["atom", dc.atom(0, V(L))], ["bi", ":list:member", [V(E), V(L)]]], [],
               [["reduce", S, "sum", [V(E)]]]),
-          agg(5, [V(K), V(S)], [["atom", dc.atom(1, V(P))], ["bi", ":match_pair", [V(P), V(K), V(Vv)]]], [K],
+          agg(6, [V(K), V(S)], [["atom", dc.atom(1, V(P))], ["bi", ":match_pair", [V(P), V(K), V(Vv)]]], [K],
               [["reduce", S, "max", [V(Vv)]]]),
-          agg(6, [V(S)], [["atom", dc.atom(2, V(K), V(P))], ["bi", ":match_field", [V(P), dc.cst(dc.name("/a")), V(Vv)]]], [],
+          agg(7, [V(S)], [["atom", dc.atom(2, V(K), V(P))], ["bi", ":match_field", [V(P), dc.cst(dc.name("/a")), V(Vv)]]], [],
               [["reduce", S, "collect_distinct", [V(Vv)]]]),
-          agg(7, [V(Vv), V(S)], [["atom", dc.atom(3, V(K), V(P))], ["bi", ":match_entry", [V(P), dc.cst(dc.name("/a")), V(Vv)]]], [Vv],
+          agg(8, [V(Vv), V(S)], [["atom", dc.atom(3, V(K), V(P))], ["bi", ":match_entry", [V(P), dc.cst(dc.name("/a")), V(Vv)]]], [Vv],
               [["reduce", S, "min", [V(K)]]])]
     init = [dc.fact(0, dc.lst([dc.num(1), dc.num(2)])), dc.fact(0, dc.lst([dc.num(3)])), dc.fact(0, dc.lst([dc.num(1)])),
             dc.fact(1, dc.pair(dc.name("/a"), dc.num(10))), dc.fact(1, dc.pair(dc.name("/a"), dc.num(5))),
@@ -1413,7 +1429,7 @@ def witness_getvars():
             dc.fact(2, dc.num(2), strct([(dc.name("/a"), dc.num(5))])), dc.fact(2, dc.num(3), strct([(dc.name("/b"), dc.num(7))])),
             dc.fact(3, dc.num(1), mapc([(dc.name("/a"), dc.num(4)), (dc.name("/b"), dc.num(2))])),
             dc.fact(3, dc.num(2), mapc([(dc.name("/a"), dc.num(4))])), dc.fact(3, dc.num(3), mapc([(dc.name("/b"), dc.num(7))]))]
-    return {"clauses": cl, "layers": [[3], [4], [5], [6], [7]], "init": init, "pre": [], "features": ["witness-getVars"],
+    return {"clauses": cl, "layers": [[4], [5], [6], [7], [8]], "init": init, "pre": [], "features": ["witness-getVars"],
             "kind": "builtin"}
 
 
@@ -1527,13 +1543,16 @@ VERDICT = {1: "Go's facts differ from the model's, the observer accepts Go's fac
 
 def build_replay(ck, prog, gc, g, v, origin):
     term = cq_case(prog, g)
+    sfx = "_bi " if is_bi(prog) else " "
     rep = {"property": "C02", "verdict": v, "kind": VERDICT.get(v, "agree"), "origin": origin, "program": prog,
            "src": gc["src"], "pre": gc["pre"], "configs": g["configs"],
            "go": {"err": g["err"], "msg": g.get("msg"), "facts": canon_go(g)},
-           "model_facts": show_facts(ck, "model_tokens " + term),
-           "expected_aggregated_facts": show_facts(ck, "expected_tokens " + term),
+           "model_facts": show_facts(ck, "model_tokens" + sfx + term),
+           "expected_aggregated_facts": show_facts(ck, "expected_tokens" + sfx + term),
            "expected_is": "base facts of the aggregated predicates + per rule spec_do over the body's solutions "
-                          "computed by C01 solve from Go's own facts (Run/C02.v observe)"}
+                          "computed by C01 solve from Go's own facts (Run/C02.v observe)"
+                          + ("; built-in atoms are solved against the built-in relations materialised over the "
+                             "sub-constants of Go's facts (Datalog/AggBuiltin.v, Run/C02.v observe_bi)" if is_bi(prog) else "")}
     return rep
 
 
@@ -1545,7 +1564,7 @@ def f8_trigger(ck, prog, g):
         named += [(dc.pred_name(f["p"]), f["args"]) for f in facts_from_go(g["facts"])]
     except ValueError:
         pass
-    out = ck.coq_show("C02", "model_tokens_all " + cq_case(prog, g))
+    out = ck.coq_show("C02", ("model_tokens_all_bi " if is_bi(prog) else "model_tokens_all ") + cq_case(prog, g))
     m = re.search(r"=\s*\[(.*?)\]\s*:\s*list Z", out, re.S)
     if m:
         try:
@@ -1602,8 +1621,15 @@ PROBES = [("F2b", witness_f2b, "internal predicate names `<head><n>__tmp` collid
            "stratum (h(S,K) :- h(K,S) never fires on the aggregate)")]
 
 
+def child_cpu():
+    import resource
+    ru = resource.getrusage(resource.RUSAGE_CHILDREN)
+    return ru.ru_utime + ru.ru_stime
+
+
 def run(ck):
     ck.obligations()
+    ck.log("obligations done (children CPU %.0f s)" % child_cpu())
     ck.build_harness()
     rng = ck.rng
     progs, origin = [], []
@@ -1618,15 +1644,23 @@ def run(ck):
         progs.append(cj["program"])
         origin.append("corpus:" + os.path.basename(path))
     ncorpus = len(progs)
-    for _ in range(ck.n(170, 2500)):
+    for _ in range(ck.n(150, 2500)):
         progs.append(gen_program(rng, big=(not ck.quick) and rng.random() < 0.4))
         origin.append("random")
     nrandom = len(progs) - ncorpus
     # confusable constants in key and collected columns (strengthened after seeding)
-    nconf = ck.n(70, 900)
+    nconf = ck.n(60, 900)
     for _ in range(nconf):
         progs.append(gen_conf_program(rng))
         origin.append("confusable")
+    # built-in atoms whose output variables are group keys / reducer arguments (round 2)
+    nbi = ck.n(40, 700)
+    progs.append(witness_getvars())
+    origin.append("builtin")
+    for _ in range(nbi):
+        progs.append(gen_bi_program(rng))
+        origin.append("builtin")
+    nbi += 1
     # recursion through an aggregation edge: must be refused on every run
     for _ in range(ck.n(30, 400)):
         cyc_progs.append(cyc_program(rng))
@@ -1642,13 +1676,13 @@ def run(ck):
     for i, p in enumerate(progs):
         if origin[i] == "exhaustive":
             stores, det = ["simple", "multi"], [False]
-        elif ck.quick and origin[i] in ("random", "confusable"):
+        elif ck.quick and origin[i] in ("random", "confusable", "builtin"):
             stores, det = rng.sample(ALL_STORES, 2), [rng.random() < 0.5]
-        elif origin[i] in ("random", "confusable"):
+        elif origin[i] in ("random", "confusable", "builtin"):
             stores, det = rng.sample(ALL_STORES, 3), [False, True]
         else:
             stores, det = ALL_STORES, [False, True]
-        go_cases.append(go_case(p, stores, det, shuffle_rng=rng if origin[i] in ("random", "confusable") and rng.random() < 0.5 else None))
+        go_cases.append(go_case(p, stores, det, shuffle_rng=rng if origin[i] in ("random", "confusable", "builtin") and rng.random() < 0.5 else None))
     probe_progs = [(pid_, mk(), what) for pid_, mk, what in PROBES]
     probe_cases = [go_case(p, ["simple", "multi"], [True]) for _, p, _ in probe_progs]
     outs = ck.run_go("c02", go_cases + probe_cases, timeout=3000)
@@ -1656,7 +1690,7 @@ def run(ck):
     outs = outs[:len(go_cases)]
     cyc_cases = [{"src": to_mangle(p), "rounds": cyc_rounds, "limit": 2000, "timeout_ms": 5000} for p in cyc_progs]
     cyc_outs = ck.run_go("c02cyc", cyc_cases, timeout=3000)
-    ck.log("go side done: %d programs" % len(progs))
+    ck.log("go side done: %d programs (children CPU %.0f s)" % (len(progs), child_cpu()))
 
     terms, where, rejected, stage_counts = [], [], [], {}
     evaluations = 0
@@ -1673,7 +1707,7 @@ def run(ck):
         for g in o["out"]["groups"]:
             evaluations += len(g["configs"])
             try:
-                terms.append(cq_case(progs[i], g))
+                terms.append(tagged_case(progs[i], g))
                 where.append((i, g))
             except ValueError as e:
                 if len(ck.violations) < 5:
@@ -1688,9 +1722,11 @@ def run(ck):
                          "no-failing-input-found")
             continue
         for g in o["out"]["groups"]:
-            probe_where.append((kid, what, cq_case(pp, g)))
+            probe_where.append((kid, what, tagged_case(pp, g)))
     # rewrite.Rewrite vs the model's rewrite (names, arities, split decisions)
-    rw_progs = [p for p, o in zip(progs, origin) if o != "exhaustive"][: ck.n(60, 600)]
+    rw_progs = [p for p, o in zip(progs, origin) if o not in ("exhaustive", "builtin")][: ck.n(50, 500)]
+    # the columns of the internal relation of a body with built-in atoms (getVars) are compared here too
+    rw_progs += [p for p, o in zip(progs, origin) if o == "builtin"][: ck.n(12, 150)]
     rw_progs += [witness_f2b()]
     rw_cases = [rewrite_case(p) for p in rw_progs]
     rw_outs = ck.run_go("c02rw", [c for c, _ in rw_cases])
@@ -1722,14 +1758,28 @@ def run(ck):
             cyc_unreached.append((cyc_cases[k]["src"], x.get("msg", "")))
         cyc_terms.append(cq_cyc(cyc_progs[k], x))
         cyc_where.append(k)
-    all_terms = terms + [t for _, _, t in probe_where]
-    with ThreadPoolExecutor(max_workers=3) as ex:
-        # every coqc start loads Run.C02 (several CPU-seconds): few shards for the cheap judges
-        fut_rw = ex.submit(ck.run_coq, "C02", "judge_rewrite", rw_terms, max(40, len(rw_terms) // 4 + 1), "rw")
-        fut_cyc = ex.submit(ck.run_coq, "C02", "judge_cyc", cyc_terms, max(60, len(cyc_terms) // 4 + 1), "cyc")
-        all_verdicts = ck.run_coq("C02", "judge", all_terms, shard=max(8, len(all_terms) // 12 + 1))
-        rw_verdicts = fut_rw.result()
-        cyc_verdicts = fut_cyc.result()
+    # every coqc start loads Run.C02 (several CPU-seconds): all kinds of cases go through Run.C02.judge_any in one
+    # batch; the cheap rewrite / agg-cycle cases are dealt round-robin among the program cases so that the shards
+    # stay balanced
+    main_terms = terms + [t for _, _, t in probe_where]
+    cheap = ["(ARewrite %s)" % t for t in rw_terms] + ["(ACycle %s)" % t for t in cyc_terms]
+    nshards = 11
+    m = -(-len(main_terms) // nshards)
+    c = -(-len(cheap) // nshards)
+    order = []                       # (kind, index) in batch order: per shard m program cases + c cheap ones
+    for b in range(nshards):
+        order += [("m", k) for k in range(b * m, min((b + 1) * m, len(main_terms)))]
+        order += [("c", k) for k in range(b * c, min((b + 1) * c, len(cheap)))]
+    size = m + c
+    batch = [main_terms[i] if kind == "m" else cheap[i] for kind, i in order]
+    got = ck.run_coq("C02", "judge_any", batch, shard=max(8, size))
+    all_verdicts, cheap_verdicts = [None] * len(main_terms), [None] * len(cheap)
+    for (kind, i), v in zip(order, got):
+        if kind == "m":
+            all_verdicts[i] = v
+        else:
+            cheap_verdicts[i] = v
+    rw_verdicts, cyc_verdicts = cheap_verdicts[:len(rw_terms)], cheap_verdicts[len(rw_terms):]
     verdicts = all_verdicts[:len(terms)]
     probes = {}
     for (kid, what, _), v in zip(probe_where, all_verdicts[len(terms):]):
@@ -1737,11 +1787,14 @@ def run(ck):
     for kid, _, what in PROBES:
         if any(v == 2 for v in probes.get(kid, [])):
             ck.known("%s %s" % (kid, what))
-    ck.log("model side done: %d comparisons" % len(terms))
+    ck.log("model side done: %d comparisons (children CPU %.0f s)" % (len(terms), child_cpu()))
     vc = {}
     f8_skipped = 0
+    vc_bi = {}
     for (i, g), v in zip(where, verdicts):
         vc[v] = vc.get(v, 0) + 1
+        if is_bi(progs[i]):
+            vc_bi[v] = vc_bi.get(v, 0) + 1
         if v in (0, 5) or len(ck.violations) >= 5:
             continue
         rep = build_replay(ck, progs[i], go_cases[i], g, v, origin[i])
@@ -1810,7 +1863,7 @@ def run(ck):
     cov = {"evaluations": evaluations, "programs": len(progs) + len(cyc_progs), "comparisons": len(terms) + len(cyc_terms),
            "distinct_nontrivial": len(nontrivial),
            "rule": "programs through parse -> AnalyzeOneUnit -> EvalProgram per store kind x WithDeterministicOrder "
-                   "(corpus %d, random %d + confusable-constant programs, exhaustive %d); every result judged against the model and by the observer "
+                   "(corpus %d, random %d + confusable-constant + built-in-atom programs, exhaustive %d); every result judged against the model and by the observer "
                    "(independent fold over the body's solutions); non-trivial = a head with >= 2 aggregating rules or a "
                    "multi-premise aggregating body; distinct by program text" % (ncorpus, nrandom, nexh),
            "exhaustive": nexh > 0,
@@ -1822,6 +1875,16 @@ def run(ck):
            "rewrite_comparisons": len(rw_terms), "rewrite_disagreements": rw_bad,
            "probes": probes, "f8_trigger_skipped": f8_skipped,
            "confusable_programs": nconf,
+           "builtin_atom_programs": nbi,
+           "builtin_atom_rule": "aggregating rules over pair / list / struct / map valued columns destructured by :match_pair "
+                                ":match_cons :list:member :match_field :match_entry (:match_nil as a test), 1-3 goals per body, chains, "
+                                "single-premise-plus-built-in and multi-premise bodies with comparison / equality / negation / "
+                                "inequality / join, 1-3 rules per head mixed with plain-atom bodies, later layers over collected lists; "
+                                "group keys and reducer arguments prefer variables bound only by a built-in output place; verdict = "
+                                "Run.C02.judge_bi (model with the built-in relations materialised per stratum + the observer spec_do over "
+                                "the body's solutions computed from Go's own facts with the built-ins evaluated); a panic or error of an "
+                                "accepted program where the model finishes = verdict 3 = violation",
+           "builtin_atom_verdicts": {str(k): n for k, n in sorted(vc_bi.items())},
            "confusable_rule": "p0(A, B, tag, 2^i) with A, B drawn from families of constants that print alike across types "
                               "(7 \"7\" b\"7\" 7.0 /a \"/a\"), contain the separators of the key encoding, or have equal "
                               "Constant.Hash() (0 0.0 [] [0] fn:pair(0,0) fn:pair(0,2^32); 1.5 and its bit pattern; /a \"/a\" "
@@ -1859,6 +1922,12 @@ def run(ck):
         "main stream avoids by construction: > 3 aggregating rules per head / > 1 aggregated head per stratum (F2b needs 11 "
         "rewritten rules), rules of the aggregated head's stratum that read it (F2d), maps (N9), hash-equal facts (F8; "
         "hash-equal VALUES inside one key / collected column are generated on purpose, every fact stays hash-distinct)",
+        "built-in atoms (:match_pair :match_cons :list:member :match_nil :match_field :match_entry) are atoms of reserved predicate "
+        "ids solved against their relations materialised over the sub-constants of the facts at hand (Datalog/AggBuiltin.v; "
+        "exact because analysis only accepts them with bound inputs and the generated bodies build no new structured values); "
+        "structs and maps are opaque tagged pairs with entries sorted by label; the stream avoids C04's findings N105-N108 "
+        "(negated destructuring goals, repeated output variables, applications at input places), duplicate labels (N9) and "
+        "positional destructuring of collected lists (their element order is not an observable)",
         "a single-atom body counts one row per matching fact (wildcard columns included), a multi-premise body one row per "
         "binding of its named variables - this asymmetry of the Go code is part of the model and of the observer"])
 
@@ -1892,7 +1961,7 @@ def replay(ck, path):
         return 1
     bad = False
     for g in out["out"]["groups"]:
-        v = ck.run_coq("C02", "judge", [cq_case(prog, g)])[0]
+        v = ck.run_coq("C02", "judge_any", [tagged_case(prog, g)])[0]
         print("replay: configs %s: verdict %d %s" % (g["configs"], v, VERDICT.get(v, "agree")))
         bad = bad or v in (1, 2, 3, 4, 7)
     if bad:
@@ -1923,7 +1992,13 @@ META = {
             "fn:pair(0,2^32); tuples (0,0)/(0,2^32)), with all facts hash-distinct. 'Over the completed fixpoint of everything "
             "the body depends on': theorem agg_cycle_not_stratifiable (no level assignment exists when an aggregation edge "
             "lies on a dependency cycle); generated programs with such a cycle are run from text 40/100 times each and must "
-            "be refused every time.",
+            "be refused every time. Bodies with built-in atoms that bind variables (:match_pair, :match_cons, :list:member, "
+            ":match_field, :match_entry): theorems tmp_columns_keep_atom_vars / tmp_row_keeps_transform_inputs (every variable of a "
+            "body atom, built-in or not, is a column of the internal relation, so group keys and reducer arguments read the body "
+            "solution's values; the variant of getVars that skips built-in atoms is refuted), the built-in relations used by the "
+            "model are proved to be the documented ones over the constants at hand; generated programs whose group keys and "
+            "reducer arguments are bound only by built-in output places are judged by the same observer with the built-ins "
+            "evaluated, and a panic / error of an accepted program is a violation.",
     "note": "Trusted: Coq kernel + vm_compute; hand-written model tied to the Go code by differential evaluation (sampled; "
             "exhaustive over a two-rule schema in the thorough tier). Printed-key grouping is modelled as tuple equality. "
             "collect_to_map, float/time/duration reducers, temporal heads are outside. Known: F2b (name collisions from 11 "
